@@ -298,6 +298,22 @@ def c11(rep, tier):
             A.check(escaped is None, 'apply_macros: a match that was found is rewritten', 'inside `if (%s)` every path reaches the splice' % show(holder['c'])[:50],
                     'inside `if (%s)` a path leaves without splicing: a pattern still matches, nothing is rewritten and the pass counts as "nothing changed" - the '
                     'expansion stops unfinished without the too-many-substitutions error' % show(holder['c'])[:50], W(am, holder, mm.facts))
+    # whatever happens, the caller gets the token stream back: every return of apply_macros is preceded by `result.transformed_sequence = <stream>`
+    rets_am = [st for st in walk_stmts(am['body']) if st['k'] == 'return' and st.get('e') is not None]
+    seq_sets = [ev for ev in g.events if (ev.e.get('k') == 'assign' or (ev.e.get('k') == 'call' and (ev.e.get('callee') or '').endswith('::operator='))) and
+                field_chain(ev.e.get('l') or ev.e.get('obj'))[1][-1:] == ['transformed_sequence']]
+    if rets_am and seq_sets:
+        for st in rets_am:
+            rn = [n for n in g.nodes if n.stmt is st]
+            if not rn:
+                continue
+            rv = strip_copies(strip_casts(st['e']))
+            if rv is None or rv.get('k') != 'ref':
+                continue            # a result built in the return expression: checked by the compiler's aggregate rules, not here
+            okr = any(sv.node.id in g.dom[rn[0].id] or sv.node is rn[0] for sv in seq_sets)
+            A.check(okr, 'apply_macros: return at line %d' % st['loc'][0], 'dominated by the assignment of the token stream to the result',
+                    'apply_macros can return at line %d without having put the token stream into its result: the caller gets an empty stream (not even the end-of-file token) - the '
+                    'front end reads its first token from it' % st['loc'][0], W(am, st, mm.facts), witness={'input': 'a main file that is absent (no definitions at all)'} if not okr else None)
     # the budget loop is left only by its bound or by "nothing changed in this pass"
     def exits_of(loop):
         out = []
